@@ -165,8 +165,39 @@ func verifHarness_C11_dispatch(kind int, member int, target int) {
 		} else {
 			verifAssert(got == 0, "C11/K1/other-channels-untouched")
 		}
+		// serving a request does not change which channels are open: a full (or skipped) channel stays a member
+		_, still := n.channels[chs[i]]
+		verifAssert(still == isMember, "C11/K1/membership-unchanged-by-a-write")
 	}
 	verifReach("C11/K1")
+}
+
+// K1c: one of the member channels is closing (its context is cancelled, its close event not yet consumed): a write to
+// all / all-but-one still reaches every other member exactly once, whatever the iteration order of the channel set.
+func verifHarness_C11_dispatch_closing(kind int, closing int) {
+	n := verifBareNode(V2, 1, 1)
+	var chs [3]*Channel
+	for i := 0; i < 3; i++ {
+		chs[i] = verifBareChannel(n)
+		n.channels[chs[i]] = struct{}{}
+	}
+	chs[closing].ctxCancel()
+	item := &message.MessageRaw{ID: 7, Payload: []byte{1}}
+	if kind == 0 {
+		verifChanPush(n.chWriteAll, interface{}(item))
+	} else {
+		verifChanPush(n.chWriteExcept, writeExceptReq{nil, item})
+	}
+	blocked := verifRunUntilBlocked(func() { n.run() })
+	verifAssert(blocked, "C11/K1c/loop-waits-for-next-request")
+	for i := 0; i < 3; i++ {
+		if i == closing {
+			continue
+		}
+		got, first := verifDrainNew(chs[i])
+		verifAssert(got == 1 && first == interface{}(item), "C11/K1c/healthy-members-served-whatever-a-closing-one-does")
+	}
+	verifReach("C11/K1c")
 }
 
 // K2b: a full backlog keeps what it holds: 64 distinct items queued (nothing drains them), a 65th is written: the queue
